@@ -4,6 +4,24 @@ From QV Require Import Common.Prelude Engine.Model.
 Lemma fr_register_scc fr n : fr_scc (fr_register fr n) = fr_scc fr.
 Proof. unfold fr_register. destruct (alookup (fr_callees fr) n); reflexivity. Qed.
 
+(** for every order of the parallel tasks *)
+Lemma request_on_stack_is_cyclic_o :
+  forall p pa tord bord f stk b rv pd prev fr n s,
+    nmem n stk = true -> kind_eqb (nkind b) KExternal = false ->
+    (kind_eqb (nkind b) KProjection && negb (is_fw_or_proj (nkind n)))%bool = false ->
+    exists fr',
+      query_for_o p pa tord bord (S f) stk (CQuery b rv pd prev) (Some fr) n s =
+        Ok (QCyclic, Some fr', upto stk n, s) /\
+      fr_scc fr' = (fr_scc fr || nmem b (upto stk n))%bool.
+Proof.
+  intros p pa tord bord f stk b rv pd prev fr n s Hn Hk Hp.
+  cbn [query_for_o].
+  destruct rv; destruct pd; try (destruct (alookup prev n) as [seen|]; [destruct (get_info s n) as [ci|]; [destruct (nset_eqb (i_tfc ci) seen)|]|]);
+    rewrite ?Hk, ?Hp, Hn; cbn [frame_mark_if];
+    (destruct (nmem b (upto stk n)); eexists; (split; [reflexivity|
+       cbn [fr_mark_scc fr_scc]; rewrite ?fr_register_scc, ?orb_true_r, ?orb_false_r; reflexivity])).
+Qed.
+
 Lemma request_on_stack_is_cyclic :
   forall p pa f stk b rv pd prev fr n s,
     nmem n stk = true -> kind_eqb (nkind b) KExternal = false ->
@@ -12,11 +30,4 @@ Lemma request_on_stack_is_cyclic :
       query_for p pa (S f) stk (CQuery b rv pd prev) (Some fr) n s =
         Ok (QCyclic, Some fr', upto stk n, s) /\
       fr_scc fr' = (fr_scc fr || nmem b (upto stk n))%bool.
-Proof.
-  intros p pa f stk b rv pd prev fr n s Hn Hk Hp.
-  cbn [query_for].
-  destruct rv; destruct pd; try (destruct (alookup prev n) as [seen|]; [destruct (get_info s n) as [ci|]; [destruct (nset_eqb (i_tfc ci) seen)|]|]);
-    rewrite ?Hk, ?Hp, Hn; cbn [frame_mark_if];
-    (destruct (nmem b (upto stk n)); eexists; (split; [reflexivity|
-       cbn [fr_mark_scc fr_scc]; rewrite ?fr_register_scc, ?orb_true_r, ?orb_false_r; reflexivity])).
-Qed.
+Proof. intros. unfold query_for. apply request_on_stack_is_cyclic_o; assumption. Qed.
